@@ -29,7 +29,7 @@ RULE = ('(A) histories (<=30 ops) over the real logs API with up to 3 simultaneo
         'openhtf.util.logs a preemption point: ALL schedules with <=2 preemptions (2 runs) / <=1 (3 runs; thorough <=2); oracle: '
         'afterwards no RecordHandler is attached, every run holds exactly its own messages once and in order, a framework '
         'message logged afterwards changes no record.  Non-trivial = two live runs, or a message containing a MAC, or dict-style '
-        'args, or (C) a schedule with an effective preemption; distinct by canonical case.')
+        'args, or (C) a schedule with an effective preemption; distinct by canonical case.  Uids include two with dots (host-name style); in a third of the histories every API call gets its own equal-but-distinct uid string.')
 ASSUMPTIONS = ['MACs are generated delimited by spaces; near-MACs (5 or 7 octets) only have to be recorded, their text is not compared.',
                'Concurrency in (B) uses real threads with yields; the oracle is schedule independent.']
 
